@@ -50,6 +50,16 @@ CLAIMS = {
                  "ORDER BY tie runs); ORDER BY on key/aggregate and rendering are decided by correspondence and the Python oracle."),
         "ref": "DESIGN.md §4 C08",
     },
+    "C09": {
+        "technique": "Lean 4 round-trip theorems (emitter ∘ reference reader = id) for JSON strings, CSV fields, HTML cells and flat rows + CLI correspondence + Python json/csv/html.parser oracle",
+        "text": ("Theorems for every value (any characters, any length): serde-style JSON escaping is inverted by an RFC 8259 string reader "
+                 "that rejects raw quotes and control characters; RFC 4180 quoting is inverted by the field reader whatever follows the "
+                 "field; HTML escaping is inverted by entity decoding and emits no < or > (D18 fixed); tabs/lines/list rows split back when "
+                 "no value contains the separator. Whole-document structure over the four result paths (header/separator/footer protocol) "
+                 "is decided by correspondence (bytes vs model) and by Python's parsers against the `into list` run. Known finding D19 "
+                 "(identical column texts share a JSON key) is reported as KNOWN-FINDING."),
+        "ref": "DESIGN.md §4 C09",
+    },
     "C10": {
         "technique": "Lean 4 theorems over a hand-written model (well-founded total lexer/parser, panic-free result types, rejection lemmas) + differential correspondence with Parser::parse and the binary",
         "text": ("Theorems (all token lists / argument vectors): the lexer and parser model are total (accepted by Lean's "
